@@ -14,7 +14,9 @@ def run(ctx, model_ok):
         ctx.cov["evaluations"] = st["ops"]
         ctx.cov["distinct_nontrivial"] = st["distinct_states"]
         ctx.cov["rule"] = ("seeded random histories (tree shape, op kind, scalar/vector input of length 0..5, start in auto∪[-N-3,N+3], "
-                           "anchor none/0/scalar/vector, all rotate_from_* forms, malformed inputs); distinct = distinct full tree "
+                           "anchor none/0/scalar/vector, all rotate_from_* forms, malformed inputs; op `angax`: rotate_from_angax with scalar/vector angles "
+                           "k*90 deg or k*pi/2 rad, axis 'x'/'y'/'z' / scaled signed coordinate vectors / (0,0,0) / other strings, the model (Model/Angax.lean at "
+                           "Float) doing the angle-axis -> rotation-vector conversion itself, from_rotvec = Rodrigues matrix snapped to the octahedral group); distinct = distinct full tree "
                            "states (all position/orientation paths) observed after an operation on the real objects")
         ctx.cov["traces_validated_against_impl"] = st["histories"]
         ctx.cov["samples"] = st.pop("samples")
@@ -28,7 +30,11 @@ def run(ctx, model_ok):
     ctx.cov.setdefault("evaluations", ost["oracle_ops"])
     ctx.cov.setdefault("distinct_nontrivial", ost["oracle_ops"])
     ctx.cov.setdefault("samples", [{"oracle": "see oracle stats"}])
-    ctx.cov["not_shown"] = ["scipy's from_rotvec/from_euler/from_matrix/from_mrp/from_quat conversions (assumed; exercised by the correspondence stream on the octahedral group)",
+    ctx.cov["not_shown"] = ["scipy's from_rotvec/from_euler/from_matrix/from_mrp/from_quat conversions (assumed; exercised by the correspondence stream on the octahedral group); "
+                            "the conversions magpylib does itself before calling scipy are shown for rotate_from_angax (angax_axis_spec, angax_rotvec_spec, "
+                            "rotate_from_angax_eq_rotate), not for rotate_from_rotvec/euler/quat/matrix/mrp (thin wrappers around scipy constructors)",
+                            "rotate_from_angax in IEEE double: a non-zero axis whose norm underflows to 0 (|axis| < ~1.5e-162) or a NaN angle/axis passes the validators, "
+                            "gives NaN rotation vectors, raises scipy's ValueError and leaves NaN positions when an anchor is given (exact arithmetic: norm > 0 is proved)",
                             "floating-point rounding of rotation composition (oracle tolerance 1e-9)"]
     ctx.assumptions += ["scipy Rotation is a group acting on R^3; np.pad(edge)/slicing behave as edgePad/mapSlice"]
 
